@@ -15,6 +15,16 @@ TECHNIQUE = ("bounded-exhaustive enumeration of all ordered pairs of records/que
 IN, FL, CH = 1, 0x8001, 3
 
 
+class _Answers:
+    """Stands in for a received message: `DNSRecord.suppressed_by` only asks it for its answers."""
+
+    def __init__(self, answers: list) -> None:
+        self._answers = answers
+
+    def answers(self) -> list:
+        return self._answers
+
+
 def vocabulary(tier: str) -> List[Tuple[tuple, tuple]]:
     """[(constructor spec, expected identity)] - identity per the property text, written independently."""
     # the last four are pairwise different names whichever caseless comparison is meant (ASCII or Unicode lower-casing):
@@ -157,7 +167,8 @@ def run(tier: str, seed: int) -> Tuple[Stats, str, List[str], Dict[str, Any]]:
             sa = {a}
             rr = DNSRRSet([a])
             cache = DNSCache()
-            cache._async_add(a)
+            cache.async_add_records([a])
+            msg_a = _Answers([a])
             for j in range(nrec):
                 b = objs[j]
                 want = ia == idents[j]
@@ -168,7 +179,8 @@ def run(tier: str, seed: int) -> Tuple[Stats, str, List[str], Dict[str, Any]]:
                 if sup != want_sup:
                     bad.append((i, j, f"DNSRRSet.suppresses is {sup}, expected {want_sup}"))
                 # the linear known-answer path (DNSRecord.suppressed_by / DNSOutgoing.add_answer) must agree with it
-                sup2 = b._suppressed_by_answer(a)
+                # (through the public entry point: is b suppressed by a message whose answers are [a]?)
+                sup2 = b.suppressed_by(msg_a)
                 if bool(sup2) != want_sup:
                     bad.append((i, j, f"DNSRecord._suppressed_by_answer is {sup2}, expected {want_sup}"))
                 g = cache.async_get_unique(b)
